@@ -10,7 +10,7 @@ from .. import exact, gen, contracts
 from ..core import unfl
 
 LEVEL = "exploration"
-RULE = ("float16: all finite pairs (thorough; 1549 x values against all y in quick) for add_2sum (2Sum/Fast2Sum, fix_overflow), mul_dekker "
+RULE = ("float16: all finite pairs (thorough; 512 x values against all y in quick) for add_2sum (2Sum/Fast2Sum, fix_overflow), mul_dekker "
         "(scale, fix_overflow) and all finite values for the splitter; float32/float64: relation-generated pairs (ties, exponent gaps "
         "p-1..p+2, near cancellation, short mantissas, subnormal/overflow edges) through fpa, apmath, utils and algorithms.py copies. "
         "distinct_nontrivial = distinct (function, options, dtype, generator class, inexact?, exponent-gap bucket, subnormal?) tuples among in-domain pairs whose sum/product is inexact")
@@ -385,9 +385,9 @@ SHARD_TIMEOUT = {"quick": 1500, "thorough": 7200}
 def plan(tier, seed):
     t = [("f16_split", {})]
     if tier == "quick":
-        step = 41 * 16
+        step = 124 * 16
         for s in range(16):
-            t.append(("f16_pairs", dict(start=(s * 41 + 7 * seed) % step, step=step, full=(s == 0))))
+            t.append(("f16_pairs", dict(start=(s * 124 + 7 * seed) % step, step=step, full=(s == 0))))
         for dtn in ("float16", "float32", "float64"):
             for s in range(2):
                 t.append(("pairs", dict(dtype=dtn, shard=s, n=12000, reps=1, seed=seed)))
